@@ -95,7 +95,7 @@ type crashOutcome struct {
 }
 
 // ceremony: key generation and one signing batch with node obsIdx crashing at the given effect numbers.
-func (r *crashRun) ceremony(outDir string, n, t, obsIdx int, crashAt []int) crashOutcome {
+func (r *crashRun) ceremony(outDir string, n, t, obsIdx int, crashAt []int, repollFirst bool) crashOutcome {
 	dir, _ := os.MkdirTemp(outDir, "crash")
 	defer os.RemoveAll(dir)
 	c, err := newCluster(dir, n, "pw")
@@ -142,12 +142,14 @@ func (r *crashRun) ceremony(outDir string, n, t, obsIdx int, crashAt []int) cras
 			return crashOutcome{}
 		}
 	}
+	repolls := 0
 	pump := func(maxRounds int) {
 		for i := 0; i < maxRounds; i++ {
 			moved := 0
 			for _, nd := range c.nodes {
 				if nd == obs {
 					// the observed node's poll, message by message, so that the context is known
+				repoll:
 					off, err := obs.st.LoadOffset()
 					if err != nil {
 						restartIfDead()
@@ -169,6 +171,12 @@ func (r *crashRun) ceremony(outDir string, n, t, obsIdx int, crashAt []int) cras
 						moved++
 						if k.dead {
 							restartIfDead()
+							// a restarted node polls at once (before the operator answers anything) in every other run;
+							// in the others the operator is faster and answers what is pending first
+							if repollFirst && repolls < 8 {
+								repolls++
+								goto repoll
+							}
 							break
 						}
 					}
@@ -307,7 +315,7 @@ func runCrashDiff(outDir string, seed int64, tier string) {
 	}
 	for _, cf := range cfgs {
 		obsIdx := r.rng.Intn(cf.n)
-		ref := r.ceremony(outDir, cf.n, cf.t, obsIdx, nil)
+		ref := r.ceremony(outDir, cf.n, cf.t, obsIdx, nil, true)
 		if !ref.ok {
 			r.mon(fmt.Sprintf("harness: the crash-free reference ceremony (n=%d,t=%d) did not complete", cf.n, cf.t))
 			continue
@@ -352,7 +360,9 @@ func runCrashDiff(outDir string, seed int64, tier string) {
 			r.st.Exhaustive = true
 		}
 		for _, k := range points {
-			r.ceremony(outDir, cf.n, cf.t, obsIdx, []int{k})
+			// once with the restarted node polling at once, once with the operator answering first
+			r.ceremony(outDir, cf.n, cf.t, obsIdx, []int{k}, true)
+			r.ceremony(outDir, cf.n, cf.t, obsIdx, []int{k}, false)
 			r.st.CrashPoints++
 		}
 		// several crashes in one run
@@ -362,7 +372,7 @@ func runCrashDiff(outDir string, seed int64, tier string) {
 		}
 		for i := 0; i < multi; i++ {
 			a, b := 1+r.rng.Intn(ref.effects), 1+r.rng.Intn(ref.effects)
-			r.ceremony(outDir, cf.n, cf.t, obsIdx, []int{a, b, a + 1 + r.rng.Intn(5)})
+			r.ceremony(outDir, cf.n, cf.t, obsIdx, []int{a, b, a + 1 + r.rng.Intn(5)}, i%2 == 0)
 			r.st.CrashPoints++
 		}
 	}
